@@ -373,6 +373,13 @@ func (p *VipnodePool) connect(ctx context.Context, nodeID string, req ConnectReq
 		}
 
 		p.mu.Lock()
+		if closer, ok := service.(interface{ Closed() bool }); ok && closer.Closed() {
+			// The connection went away while this request was being
+			// processed and CloseRemote has been (or is being) called for
+			// it: registering it now would leave it registered forever.
+			p.mu.Unlock()
+			return nil, fmt.Errorf("connection closed during registration of %s", pretty.Abbrev(nodeID))
+		}
 		p.remoteHosts[node.ID] = service
 		p.remoteNodeLookup[service] = node.ID
 		p.mu.Unlock()
